@@ -7,6 +7,8 @@ from typing import Any, Dict, List, Optional, Tuple
 
 from hypothesis import strategies as st
 
+import primaite.session.environment  # noqa: F401  (pulled in once by the parent so that forked workers do not each pay for it)
+
 from .. import c10_scn as S
 from ..harness import CaseResult, Ctx, enum_run, hyp_run
 from ..simutil import exc_msg, exc_sig, new_env, new_game
@@ -497,9 +499,10 @@ def run_case_strategy(draw, max_ops: int = 30):
     order = list(draw(st.permutations(list(range(n)))))
     order2 = list(draw(st.permutations(list(range(n))))) if iso else None
     blue_pool = OWN_BIAS if iso else OWN_BIAS + list(range(S.OWN_ACTIONS, S.OWN_ACTIONS + len(S.blue_extra_actions()))) * 2
-    step = st.tuples(st.just("step"), st.tuples(st.sampled_from(blue_pool), *[st.sampled_from(OWN_BIAS)] * (n - 1)).map(list)).map(list)
-    reset = st.just(["reset"])
-    ops = draw(st.lists(st.one_of(*[step] * 14, reset), min_size=8, max_size=max_ops))
+    acts = st.tuples(st.sampled_from(blue_pool), *[st.sampled_from(OWN_BIAS)] * (n - 1)).map(list)
+    # one op in 12 is a reset (a selector, because st.one_of collapses repeated identical branches)
+    op = st.tuples(st.integers(0, 11), acts).map(lambda t: ["reset"] if t[0] == 0 else ["step", t[1]])
+    ops = draw(st.lists(op, min_size=8, max_size=max_ops))
     return {"kind": "run", "n": n, "iso": iso, "agents": agents, "hosts": hosts, "dbpw": dbpw, "order": order,
             "order2": order2, "ops": ops}
 
